@@ -5,23 +5,25 @@ Import ListNotations.
 
 (* ---------- instance 1: abort bookkeeping is never touched by the runtime ---------- *)
 Definition Rmeta (H H' : heap) : Prop :=
-  aborted H' = aborted H /\
+  (exists l, aborted H' = l ++ aborted H) /\
   length (cmds H) <= length (cmds H') /\
   forall c, c < length (cmds H) -> meta (gcmd c H') = meta (gcmd c H).
 
 Lemma Rmeta_refl H : Rmeta H H.
-Proof. repeat split; auto. Qed.
+Proof. repeat split; auto. exists []. reflexivity. Qed.
 Lemma Rmeta_trans a b c : Rmeta a b -> Rmeta b c -> Rmeta a c.
 Proof.
-  intros (A1 & A2 & A3) (B1 & B2 & B3). repeat split; try congruence; try lia.
-  intros x Hx. rewrite B3 by lia. apply A3; exact Hx.
+  intros ([l1 A1] & A2 & A3) ([l2 B1] & B2 & B3). repeat split; try lia.
+  - exists (l2 ++ l1). rewrite B1, A1. apply app_assoc.
+  - intros x Hx. rewrite B3 by lia. apply A3; exact Hx.
 Qed.
 Lemma Rmeta_same_cmds H H' : aborted H' = aborted H -> cmds H' = cmds H -> Rmeta H H'.
-Proof. intros A B. unfold Rmeta, gcmd. rewrite A, B. repeat split; auto. Qed.
+Proof. intros A B. unfold Rmeta, gcmd. rewrite A, B. repeat split; auto. exists []. reflexivity. Qed.
 
 Lemma Rmeta_ucmd c f H : good f -> Rmeta H (ucmd c f H).
 Proof.
   intros G. repeat split.
+  - exists []. reflexivity.
   - unfold ucmd; simpl. apply length_updd.
   - intros x Hx. destruct (Nat.eq_dec c x) as [->|Hne].
     + rewrite gcmd_ucmd_same. apply G.
@@ -30,8 +32,15 @@ Qed.
 Lemma Rmeta_add_cmd c H : Rmeta H (mkH (chans H) (tfl H) (cmds H ++ [c]) (woken H) (xready H) (aborted H) (log H)).
 Proof.
   repeat split; simpl.
+  - exists []. reflexivity.
   - rewrite app_length; simpl; lia.
   - intros x Hx. unfold gcmd, getd; simpl. rewrite app_nth1 by exact Hx. reflexivity.
+Qed.
+
+Lemma Rmeta_add_aborted n H : Rmeta H (add_aborted n H).
+Proof.
+  unfold Rmeta, add_aborted, gcmd; simpl. repeat split; auto.
+  exists [(n, length (cmds H))]. reflexivity.
 Qed.
 
 Definition frame_meta := frame_all Rmeta Rmeta_refl Rmeta_trans Rmeta_ucmd
@@ -43,12 +52,21 @@ Definition frame_meta := frame_all Rmeta Rmeta_refl Rmeta_trans Rmeta_ucmd
   (fun c H => Rmeta_same_cmds H _ eq_refl eq_refl)
   (fun t H => Rmeta_same_cmds H _ eq_refl eq_refl)
   (fun H => Rmeta_same_cmds H _ eq_refl eq_refl)
+  Rmeta_add_aborted
   Rmeta_add_cmd.
 
-Lemma was_aborted_stable cid H H' : cid < length (cmds H) -> Rmeta H H' -> was_aborted cid H' = was_aborted cid H.
+Lemma was_aborted_mono cid H H' : cid < length (cmds H) -> Rmeta H H' -> was_aborted cid H = true -> was_aborted cid H' = true.
 Proof.
-  intros Hc (A & _ & M). unfold was_aborted. specialize (M cid Hc). unfold meta in M.
-  inversion M as [[Mn Me]]. rewrite A, Mn, Me. reflexivity.
+  intros Hc ([l A] & _ & M). unfold was_aborted. specialize (M cid Hc). unfold meta in M.
+  inversion M as [[Mn Me]]. rewrite A, Mn, Me. intros E.
+  apply existsb_exists in E as (x & Hx & Ex). apply existsb_exists. exists x. split; [exact Hx|].
+  apply existsb_exists in Ex as (a & Ha & Ea). apply existsb_exists. exists a. split; [|exact Ea].
+  apply in_or_app. right. exact Ha.
+Qed.
+Lemma was_aborted_false_back cid H H' : cid < length (cmds H) -> Rmeta H H' -> was_aborted cid H' = false -> was_aborted cid H = false.
+Proof.
+  intros Hc R E. destruct (was_aborted cid H) eqn:E0; [|reflexivity].
+  rewrite (was_aborted_mono cid H H' Hc R E0) in E. discriminate.
 Qed.
 
 (* ---------- C01 / C07: run_until_settled leaves the command's own queues empty ---------- *)
@@ -62,11 +80,13 @@ Proof.
 Qed.
 
 Theorem settle_quiescent : forall fuel cid H H',
-  cid < length (cmds H) -> was_aborted cid H = false ->
-  settle fuel cid H = Some H' ->
-  c_ready (gcmd cid H') = [] /\ c_spawnq (gcmd cid H') = [] /\ was_aborted cid H' = false.
+  cid < length (cmds H) ->
+  settle fuel cid H = Some H' -> was_aborted cid H' = false ->
+  c_ready (gcmd cid H') = [] /\ c_spawnq (gcmd cid H') = [].
 Proof.
-  induction fuel as [|f IH]; intros cid H H' Hc Hab E; [discriminate|].
+  induction fuel as [|f IH]; intros cid H H' Hc E Hab'; [discriminate|].
+  assert (R0 : Rmeta H H') by (unfold settle in E; apply (frame_meta (S f)) in E; exact E).
+  assert (Hab : was_aborted cid H = false) by (eapply was_aborted_false_back; eauto).
   unfold settle in E. cbn [funs step_funs rsettle] in E. unfold settle_body in E.
   rewrite Hab in E.
   set (H1 := fold_left (fun Hh t => ucmd cid (spawn_one t) Hh) (c_spawnq (gcmd cid H)) (ucmd cid (set_spawnq []) H)) in *.
@@ -76,14 +96,12 @@ Proof.
   assert (Hq : c_spawnq (gcmd cid H1) = []).
   { subst H1. apply spawn_fold_queues. rewrite gcmd_ucmd_same. destruct (gcmd cid H); reflexivity. }
   destruct (c_ready (gcmd cid H1)) as [|s rest] eqn:ER.
-  - inversion E; subst H'. repeat split; auto.
-    rewrite (was_aborted_stable cid H H1 Hc R1). exact Hab.
+  - inversion E; subst H'. split; auto.
   - destruct (rdrain (funs f) cid H1) as [H2|] eqn:E2; [|discriminate].
     assert (R2 : Rmeta H1 H2) by (apply (frame_meta f) in E2; exact E2).
     assert (R02 : Rmeta H H2) by (eapply Rmeta_trans; eassumption).
     apply (IH cid H2 H'); auto.
-    + destruct R02 as (_ & L & _). lia.
-    + rewrite (was_aborted_stable cid H H2 Hc R02). exact Hab.
+    destruct R02 as (_ & L & _). lia.
 Qed.
 
 (* an aborted command is never polled: its settle step does not depend on the recursive functions *)
@@ -93,15 +111,15 @@ Proof. intros F G cid H Hab. cbn [step_funs rsettle]. unfold settle_body. rewrit
 
 (* abort is permanent through every runtime step *)
 Theorem abort_permanent_settle : forall fuel cid' cid H H',
-  cid < length (cmds H) -> settle fuel cid' H = Some H' -> was_aborted cid H' = was_aborted cid H.
+  cid < length (cmds H) -> settle fuel cid' H = Some H' -> was_aborted cid H = true -> was_aborted cid H' = true.
 Proof.
-  intros fuel cid' cid H H' Hc E. apply was_aborted_stable; [exact Hc|].
+  intros fuel cid' cid H H' Hc E. apply was_aborted_mono; [exact Hc|].
   unfold settle in E. apply (frame_meta fuel) in E. exact E.
 Qed.
 Theorem abort_permanent_poll_next : forall fuel cid' w cid H r H',
-  cid < length (cmds H) -> poll_next fuel cid' w H = Some (r, H') -> was_aborted cid H' = was_aborted cid H.
+  cid < length (cmds H) -> poll_next fuel cid' w H = Some (r, H') -> was_aborted cid H = true -> was_aborted cid H' = true.
 Proof.
-  intros fuel cid' w cid H r H' Hc E. apply was_aborted_stable; [exact Hc|].
+  intros fuel cid' w cid H r H' Hc E. apply was_aborted_mono; [exact Hc|].
   unfold poll_next in E. apply (frame_meta fuel) in E. exact E.
 Qed.
 
